@@ -6,7 +6,7 @@ import LlgoVerif.Model.Cache
     `use <opt> <ccrest>`                 → `ok <CCFLAGS list>`                    (crosscompile export)
     `key G=… P=… P=…`                    → `ok <hexid>!<canonical manifest>!<hash of the full fingerprint> …`
     `rel G=… P=… P=…`                    → `ok <hexid>!<hash of the relevant inputs> …`
-    `build <force> <cacheOn> G=… P=… …`  → `ok <hexid>:<hit|miss>:<fresh|stale> …`   (model's `buildProg` on the state)
+    `build <force> <cacheOn> G=… P=… …`  → `ok <hexid>:<hit|miss>:<fresh|stale>:<hash of the relevant inputs> …`   (model's `buildProg` on the state)
     `clean`                              → `ok`
     Strings are hex of bytes (`-` = empty), lists are `,`-separated (`.` = empty).  See harness/c13/main.go. -/
 open LlgoVerif LlgoVerif.Util LlgoVerif.Cache
@@ -65,10 +65,15 @@ def parseG (s : String) : Option Global :=
            env := ← unkv env }
   | _ => none
 
+/-- n normal, d `LLGoPackage = "decl"`, l `"link"`, x `"link: …"`, p `"py.<mod>"`, i `"noinit"` -/
+def kindOf : String → Option PkgKind
+  | "n" => some .normal | "d" => some .declOnly | "l" => some .linkIR | "x" => some .linkExtern | "p" => some .pyModule
+  | "i" => some .noInit | _ => none
+
 def parseP (s : String) : Option (PkgData × List String) :=
   match s.splitOn ";" with
-  | [id, path, name, _modkind, modver, gof, alt, oth, side, emb, rw, deps] => do
-    pure ({ id := ← unhexS id, path := ← unhexS path, name := ← unhexS name, modVersion := ← unhexS modver,
+  | [id, path, name, kind, _modkind, modver, gof, alt, oth, side, emb, rw, deps] => do
+    pure ({ id := ← unhexS id, path := ← unhexS path, name := ← unhexS name, kind := ← kindOf kind, modVersion := ← unhexS modver,
             goFiles := ← unfiles gof, altFiles := (← unfiles alt).map (·.file), otherFiles := (← unfiles oth).map (·.file),
             sideFiles := (← unfiles side).map (·.file), embedFiles := (← unfiles emb).map (·.file),
             rewriteVars := ← unkv rw }, ← unlist deps)
@@ -156,10 +161,10 @@ def handle (st : St) (line : String) : St × String :=
       -- the model's buildProg, one package at a time so that hit/miss and fresh/stale can be reported
       let r := ts.foldl (fun (acc : CacheMap String Rel × List String) t =>
         let k := fp' (key st.cfg hb' fp' g t)
-        let hit := o.cacheOn && !o.force && (lookup acc.1 k).isSome
+        let hit := o.cacheOn && !o.force && cachedKind t.data && (lookup acc.1 k).isSome
         let b := buildPkg st.cfg hb' fp' (fun r => r) o g acc.1 t
         let fresh := relHash b.2 == relHash (relevant g t)
-        (b.1, acc.2 ++ [hexS t.data.id ++ ":" ++ (if hit then "hit" else "miss") ++ ":" ++ (if fresh then "fresh" else "stale")]))
+        (b.1, acc.2 ++ [hexS t.data.id ++ ":" ++ (if hit then "hit" else "miss") ++ ":" ++ (if fresh then "fresh" else "stale") ++ ":" ++ relHash (relevant g t)]))
         (st.cache, [])
       ({ st with cache := r.1 }, "ok " ++ " ".intercalate r.2)
     | none => (st, "bad-op")
